@@ -99,6 +99,7 @@ impl Body for Multipart<'_> {
     }
 
     fn write<W: Write>(&mut self, mut writer: W) -> IoResult<()> {
+        self.data.rewind()?;
         copy(&mut self.data, &mut writer)?;
         Ok(())
     }
